@@ -642,17 +642,22 @@ func (l *Lexer) skipSpaces() {
 func (l *Lexer) skipComment(noPanic bool) bool {
 	r, _ := utf8.DecodeRuneInString(l.Buffer[l.pos:])
 	switch {
-	case r == '#' || r == '/' && l.peekIs(1, '/') || r == '-' && l.peekIs(1, '-'):
-		return l.skipCommentUntil("\n", false, noPanic)
+	case r == '#':
+		return l.skipCommentUntil(1, "\n", false, noPanic)
+	case r == '/' && l.peekIs(1, '/') || r == '-' && l.peekIs(1, '-'):
+		return l.skipCommentUntil(2, "\n", false, noPanic)
 	case r == '/' && l.peekIs(1, '*'):
-		return l.skipCommentUntil("*/", true, noPanic)
+		return l.skipCommentUntil(2, "*/", true, noPanic)
 	default:
 		return false
 	}
 }
 
-func (l *Lexer) skipCommentUntil(end string, mustEnd bool, noPanic bool) bool {
+// skipCommentUntil skips a comment whose opener is opener bytes long, up to and including end.
+func (l *Lexer) skipCommentUntil(opener int, end string, mustEnd bool, noPanic bool) bool {
 	pos := token.Pos(l.pos)
+	// The terminator is searched after the opener: "/*/" is not a complete comment.
+	l.skipN(opener)
 	for !l.eof() {
 		if l.slice(0, len(end)) == end {
 			l.skipN(len(end))
